@@ -238,6 +238,30 @@ def run(ctx):
                   how="all writer statements inside one _create_scoped_session region")
     ctx.floor("R05.4", "rdb_write_methods", n_m, 9)
 
+    # who may commit / roll back: only the scoped-session context manager
+    def session_txn_calls(prog, modname):
+        out = []
+        for fn in prog.iter_funcs((modname,)):
+            if fn.name == "_create_scoped_session":
+                continue
+            for c in own_nodes(fn.node):
+                if isinstance(c, ast.Call) and isinstance(c.func, ast.Attribute) and c.func.attr in ("commit", "rollback", "begin_nested", "close") \
+                        and "session" in norm(c.func.value):
+                    out.append((fn, c))
+        return out
+    txn = session_txn_calls(p, RDBMOD)
+    for fn, c in txn:
+        if fn.cls is not None and fn.cls.name == "_VersionManager":
+            continue
+        ctx.fail("R05.4", fn.short, f"explicit-{c.func.attr}",
+                 f"{fn.name} calls `{norm(c)}` itself: part of a storage call becomes durable (or is discarded) before the call's "
+                 f"transaction ends, so an interruption leaves a half-applied call", where=where(fn, c))
+    if not [1 for fn, c in txn if not (fn.cls is not None and fn.cls.name == "_VersionManager")]:
+        ctx.ok("R05.4", "optuna/storages/_rdb/storage.py", "only-context-manager-commits", how="0 explicit session.commit/rollback/close outside _create_scoped_session")
+    from sa.loader import Program as _P
+    fxp = _P.from_sources({"fx.rdb": "class RDBStorage:\n    def _prep(self, session):\n        session.flush()\n        session.commit()\n"})
+    ctx.require(len(session_txn_calls(fxp, "fx.rdb")) == 1, "R05.4: positive fixture for explicit commit not flagged")
+
     # ------------------------------------------------------------ R05.5 lock release
     ctx.rule("R05.5", "journal file lock released on every exit (shared with C07 R07.3)")
     J.rule_release(ctx, "R05.5")
